@@ -315,7 +315,7 @@ SYNTH_RULE = ("A: every pair of operand schemas built from a 10-entry pool (base
               "debool(X1); definition texts with references to D1 / D2 / X1), first operand <= MaxA constituents, second <= MaxB with "
               "overlapping or disjoint identifiers, x every equation table of <= MaxPairs pairs (base-base, base-term incl. the swapped "
               "direction, term-term of equal and unequal typification, two keys on one value, values defined through keys), plus tables "
-              "inside one schema (Ops().IsEquatable / Equate).  TLC (Gen_Synth over SchemaOps.tla) predicts defined / refused, the result "
+              "inside one schema of <= 4 constituents (Ops().IsEquatable / Equate), also a second table on the result of a first one.  TLC (Gen_Synth over SchemaOps.tla) predicts defined / refused, the result "
               "(order, identifiers, aliases, definitions, texts, statuses, typifications) and both translations, and checks SynthContract "
               "(the statement as a predicate) on its own result as an invariant.  The real BinarySynthes / Equate is executed with the "
               "identifier hook; the contract is evaluated on the implementation's own result (C09 invariants on the result, translations "
@@ -331,9 +331,10 @@ def plan_C12(ctx):
     ctx.assumptions = ["operands whose definitions or texts mention a name that resolves nowhere are excluded from the image-of-definition clause (such a name may start to resolve after merging, cf. K4)",
                        "the texts of an equated pair follow the table's keep/replace option (a swapped pair keeps the removed side's texts) and are compared with the model only",
                        "admissibility is the implementation's documented rule set as modelled in EqAdmissible; a base set equated with a non-set term is inadmissible (repaired defect D23)"]
-    cfg = "Gen_Synth_%s.cfg" % ("q" if ctx.quick else "t")
-    ctx.constants = {cfg: open(os.path.join(vcore.TLA, cfg)).read().split("SPECIFICATION")[0].split()}
-    ctx.replay("Gen_Synth.tla", cfg, h, [], tag=cfg[:-4], timeout=3400, xss="64m", xmx="16g")
+    ctx.constants = {}
+    for cfg in (["Gen_Synth_q.cfg", "Gen_Synth_q2.cfg", "Gen_Synth_qe.cfg"] if ctx.quick else ["Gen_Synth_q2.cfg", "Gen_Synth_qe.cfg", "Gen_Synth_t.cfg"]):
+        ctx.constants[cfg] = open(os.path.join(vcore.TLA, cfg)).read().split("SPECIFICATION")[0].split()
+        ctx.replay("Gen_Synth.tla", cfg, h, [], tag=cfg[:-4], timeout=3400, xss="64m", xmx="16g")
     ctx.exhaustive = True
 
 
